@@ -268,6 +268,7 @@ def run_history(expr, events, want_fresh=True):
         init_ids = list(range(len(w.objs)))
         rec["init"] = w.profiles(init_ids)
         cur = dict(ST_DEFAULT)
+        switched = False
         newest = w.root
         rec["events"] = []
         for si, ev in enumerate(events):
@@ -282,6 +283,7 @@ def run_history(expr, events, want_fresh=True):
             kind = ev[0]
             if kind == "set":
                 w.settings.set(ev[1])
+                switched = switched or dict(ev[1]) != cur
                 cur = dict(ev[1])
                 stp.update(raised=False, transparent=True, why="")
             elif kind == "q":
@@ -297,7 +299,9 @@ def run_history(expr, events, want_fresh=True):
                 ok, why = (False, "raised %s" % type(ans).__name__) if raised else W.valid(asp, A, ans, TOL, ctx)
                 stp.update(raised=raised, valid=ok, why=why, exc=(type(ans).__name__ + ": " + str(ans)[:120]) if raised else None)
                 transparent = ok
-                det = deterministic_method(q)
+                # (only while the settings have not been switched in this history: a cache hit legitimately returns what
+                # was computed under the settings of the first call, a fresh object follows the current ones)
+                det = None if switched else deterministic_method(q)
                 if (want_fresh and asp[0] == "precond" and ok and penv is not None
                         and penv["precond_size"] != cur["precond_size"]):
                     # deterministic view of the same state: the preconditioner handed out is the one a fresh object
@@ -342,7 +346,13 @@ def run_history(expr, events, want_fresh=True):
                         if det and ok and fok:
                             # "different decomposition methods are never confused": a factorization requested with an
                             # explicit deterministic method is the SAME factor (up to column signs) a fresh object returns
-                            same = same_factor(ans, fans)
+                            # decided by the structural signature of the requested method (triangular / orthogonal
+                            # columns), which the answer must have whenever a fresh object's answer has it; methods
+                            # without such a signature: the same factor as the fresh object's, up to column signs.
+                            # (A class that ignores `method` in some regime does so on a fresh object too: that is
+                            # history independent and no concern of this property.)
+                            sa, sf = method_signature(ans, det), method_signature(fans, det)
+                            same = same_factor(ans, fans) if sa is None or sf is None else (sa or not sf)
                             stp["method_same_as_fresh"] = same
                             if not same:
                                 stp.setdefault("extra", []).append(
@@ -434,6 +444,25 @@ def deterministic_method(q):
         if k_ == "method" and v_[0] == "str":
             m = v_[1]
     return m if m in ms else None
+
+
+def method_signature(a, method):
+    """does the factor show the structure the method produces?  cholesky: triangular; symeig / svd / diagonalization:
+    orthogonal columns (V sqrt(Lambda));  None for methods without a structural signature"""
+    import torch
+    from . import c12_world as W
+    try:
+        R = W.dn(a[1]) if isinstance(a, tuple) else W.dn(a.root)
+        sc = 1e-8 * max(1.0, float(R.abs().max()) ** 2)
+        if method == "cholesky":
+            return bool(torch.equal(torch.tril(R), R) or torch.equal(torch.triu(R), R))
+        if method in ("symeig", "svd", "diagonalization"):
+            G = R.mT @ R
+            off = G - torch.diag_embed(torch.diagonal(G, dim1=-2, dim2=-1))
+            return bool(off.abs().max() <= sc) if off.numel() else True
+    except Exception:
+        return None
+    return None
 
 
 def same_factor(a, b, tol=1e-6):
@@ -1142,16 +1171,20 @@ def run(ctx):
             "translator harness/c12_memo_tr.py (Python ast -> Gallina; fail-closed) and the Python semantics of dict / "
             "hasattr / tuple equality / pickle.dumps(kwargs) / try-except as modelled in coq/C12/MemoBase.v",
             "hand transcription of the cache-relevant control flow of LinearOperator (and of the Sum/AddedDiag/ConstantMul/"
-            "Cat overrides) in coq/C12/Model.v - validated by the exact key-list correspondence, not derived from the source",
+            "Cat/KroneckerProduct overrides) in coq/C12/Model.v - validated by the exact key-list correspondence, not "
+            "derived from the source",
             "object profiles read by introspection in harness/c12_world.py (which class caches to_dense under which name, "
             "which children it densifies); numerical kernels (cholesky, eigh, Lanczos, CG, pivoted Cholesky, SVD) are assumed "
             "valid (hypotheses of the theorems), the oracle checks them with plain torch",
             "correspondence harness harness/c12.py, c12_world.py and the comparator coq/C12/Check.v"],
         "evaluations": stats["steps"], "distinct_nontrivial": len(distinct),
         "rule": "event histories on real operator objects; grid: exhaustive short histories over %d queries + %d derivations "
-                "per root class (see per_class), random histories of length 4-12 over the wide alphabet (%d queries, %d "
-                "derivations, %d settings regimes, seed_symeig, clear); non-trivial = at least 2 events; distinct by "
-                "(root class, event list)" % (len(Q_CORE), len(D_CORE), len(Q_WIDE), len(D_WIDE), len(SETTINGS)),
+                "per root class (see per_class), every wide derivation x core query, settings-switch families "
+                "[set, writer, set, reader] / [set, writer, derivation, reader] / [set, writer, set, derivation, reader], "
+                "shared-base families [derive, writer on derived, query on base | derive again, query], random histories of "
+                "length 4-12 over the wide alphabet (%d queries, %d derivations, %d settings regimes, seed_symeig, clear); "
+                "non-trivial = at least 2 events; distinct by (root class, event list)"
+                % (len(Q_CORE), len(D_CORE), len(Q_WIDE), len(D_WIDE), len(SETTINGS)),
         "per_class": counts, "other_classes": [l for l, _ in others], "stats": stats,
         "problems_by_cause": by_cause,
         "model_hard_mismatches": len(hard), "model_pessimistic_steps": len(soft),
